@@ -14,4 +14,9 @@ macro "bridge" "[" ls:simpLemma,* "]" : tactic =>
     | (simp [$ls,*] <;> ring_nf <;> done)
     | (simp [$ls,*] <;> ring_nf <;> simp <;> done)
     | (simp [$ls,*] <;> field_simp <;> done)
-    | (simp [$ls,*] <;> field_simp <;> ring_nf <;> done))
+    | (simp [$ls,*] <;> field_simp <;> ring_nf <;> done)
+    -- sign bookkeeping inside exponents (`θ / (-1 - θ)` written as `-(θ / (1 + θ))`, `-1 / θ` as `-(1 / θ)`):
+    -- `ring_nf` does not look under `rpow`, so normalise negations and subtractions by rewriting
+    | (simp only [$ls,*, sub_eq_add_neg, ← neg_add, div_neg, neg_div, one_div] <;> done)
+    | (simp [$ls,*] <;> simp only [sub_eq_add_neg, ← neg_add, div_neg, neg_div, one_div] <;> done)
+    | (simp [$ls,*] <;> simp only [sub_eq_add_neg, ← neg_add, div_neg, neg_div, one_div] <;> ring_nf <;> done))
